@@ -180,9 +180,15 @@ func init() {
 			roots := rootsOf(env, g, []string{"pkg/prebuild:getFamily", "pkg/prebuild/directive:filterRuleForUs", "pkg/prebuild/directive:filter"})
 			reach := frame.Reachable(env.Prog, roots)
 			g.Static = append(g.Static, frame.MapRanges(env.Prog, reach, mapRangeJustifications(env), checkJustification(env))...)
+			if fn := env.Prog.Func("pkg/prebuild/directive", "Run"); fn != nil {
+				g.addFunc(env, fn)
+				g.Static = append(g.Static, frame.DirectiveRunShape(env.Prog, fn))
+			} else {
+				g.OutOfDate = append(g.OutOfDate, "pkg/prebuild/directive:Run")
+			}
 			g.Unverified = []string{
 				"the text surgery: marker removal (Option.Clean, a regexp built from the directive name), paragraph removal by a regexp compiled from the directive's own text, preservation of unguarded lines",
-				"that directive.Run finds every directive of the file (one regexp scan of the original text)",
+				"that regDirective matches every directive line (Run's loop over the matches is covered by a shape obligation)",
 			}
 			g.Assumptions = append(g.Assumptions,
 				"fmt.Sprintf with a literal format is a deterministic function of its arguments (one uninterpreted symbol per format string): the contract of filterRuleForUs names the formats abi%d and apparmor%.1f",
